@@ -1,6 +1,7 @@
 import Blue.Model.SstOpen
 import Blue.Model.Damage
 import Blue.Model.Crc32c
+import Blue.Model.DamageClass
 import Blue.Driver.Util
 /-! Driver verbs for damaged files (property C09), instance token `dmg`.
 
@@ -8,6 +9,10 @@ import Blue.Driver.Util
                                                 `file <kind> <len> <what is read from it, in full>`
       `dmg d <id> <damage>`                     the current file with the damage applied (hashed answer)
       `dmg one <kind> <hex> <probes|-> <f|h> <damage|->`   self-contained form
+
+    The answer for a damaged file starts with `cls=<class>`: the region of the pristine file the
+    damage lies in, which is the hypothesis class of the theorem of `Blue.Props.C09` that speaks about
+    the case (`Blue.DamageClass.classOf`, from the model's own reading of the pristine bytes).
 
     kind   ::= sst | log | mani
     probes ::= <hex key>@<timestamp>{,…}        the `Sst::load` calls
@@ -189,6 +194,13 @@ structure Ctx where
   kind : String
   bytes : List Nat
   probes : List (List Nat × Nat)
+  /-- the regions of the pristine file (computed once per line group) -/
+  layout : Option Blue.DamageClass.Layout
+
+def clsTok (l : Option Blue.DamageClass.Layout) (ds : List Dmg) : String :=
+  match l with
+  | some l => "cls=" ++ Blue.DamageClass.classOf l ds ++ " "
+  | none => "cls=? "
 
 /-- one `dmg …` request: the line group afterwards, and the answer -/
 def step (st : Option Ctx) : List String → Option Ctx × String
@@ -196,18 +208,24 @@ def step (st : Option Ctx) : List String → Option Ctx × String
     match parseHex hx, parseProbes pr with
     | some bs, some ps =>
       match render kind bs ps true with
-      | some r => (some ⟨id, kind, bs, ps⟩, "file " ++ kind ++ " " ++ toString bs.length ++ " " ++ r)
+      | some r => (some ⟨id, kind, bs, ps, Blue.DamageClass.layoutOf crc kind bs⟩,
+                   "file " ++ kind ++ " " ++ toString bs.length ++ " " ++ r)
       | none => (st, "bad-op")
     | _, _ => (st, "bad-op")
   | ["d", id, dm] =>
     match st, parseSeq dm with
     | some c, some ds =>
-      if c.id = id then (st, (render c.kind (applyAll c.bytes ds) c.probes false).getD "bad-op") else (st, "bad-op")
+      if c.id = id then
+        (st, ((render c.kind (applyAll c.bytes ds) c.probes false).map (clsTok c.layout ds ++ ·)).getD "bad-op")
+      else (st, "bad-op")
     | _, _ => (st, "bad-op")
   | ["one", kind, hx, pr, mode, dm] =>
     match parseHex hx, parseProbes pr, parseSeq dm with
     | some bs, some ps, some ds =>
-      if mode = "f" ∨ mode = "h" then (st, (render kind (applyAll bs ds) ps (mode = "f")).getD "bad-op") else (st, "bad-op")
+      if mode = "f" ∨ mode = "h" then
+        (st, ((render kind (applyAll bs ds) ps (mode = "f")).map
+                (clsTok (Blue.DamageClass.layoutOf crc kind bs) ds ++ ·)).getD "bad-op")
+      else (st, "bad-op")
     | _, _, _ => (st, "bad-op")
   | _ => (st, "bad-op")
 
